@@ -46,6 +46,15 @@ def oracle(blocks, dot0, dot1):
             problems.append(f"refined: block {src} has no successor")
         if b["exit"][0] in ("fall", "term") and len(out) != 1:
             problems.append(f"refined: block {src} ends by {b['exit'][0]} but has {len(out)} successors")
+        elif b["exit"][0] in ("fall", "term"):
+            # WHICH successor: the block that follows in the code for a fall-through (<terminate> when the code
+            # ends there), <terminate> for a halting block -- in the initial graph as well
+            nxt = f"Offset: 0x{b['exit'][1]:x}" if b["exit"][0] == "fall" else None
+            want = nxt if (nxt is not None and nxt in byoff) else "<terminate>"
+            for name, es in (("initial", dot0[1]), ("refined", edges)):
+                got = [t for a, t in es if a == src]
+                if got != [want]:
+                    problems.append(f"{name}: block {src} ends by {b['exit'][0]}: its one mandatory successor is {want}, the graph has {got}")
     return problems
 
 
